@@ -428,7 +428,13 @@ def r2_overheads(ck, cx):
     mins, peeks = {}, {}
     # per framer class (the isinstance tests taken as true on a path, whether written as an if-chain or as a loop over a
     # table): the size handed to the first recvPacket() and the expression compared with 0x80 as the function code
-    for p in cx.enum(f3, tm, max_depth=0, max_paths=400000):
+    from ..paths import SelfResolver as _SR
+    _base = _SR(cx.idx, stop=lambda fn_: fn_.cls is not None or fn_.mod.name != 'pymodbus.transaction' or not fn_.name.startswith('_'))
+
+    def _priv(call, fr, path):
+        # private module-level helpers of transaction.py (called by name or through a row of a constant table) belong to _recv
+        return _base(call, fr, path) if isinstance(call.func, (ast.Name, ast.Subscript)) else None
+    for p in cx.enum(f3, tm, max_depth=1, max_paths=400000, resolver=_priv):
         annotate(p, heap=False)
         if contradictory(p):
             continue
@@ -475,9 +481,29 @@ def r2_overheads(ck, cx):
         ck.ob('R2', f3.qn, 'function-code peek[%s] reads offset %d' % (kind, pos), okp, detail='fc-peek %s %s' % (kind, pk), loc=cx.floc(f3))
     # ASCII doubling of the predicted PDU size in execute()
     ex = cx.method(tm, 'execute')
-    dbl = [n for n in ast.walk(ex.node) if isinstance(n, ast.If) and 'ModbusAsciiFramer' in U(n.test) and
-           any(isinstance(s, ast.Assign) and U(s.value).replace(' ', '') in ('response_pdu_size*2', '2*response_pdu_size') for s in n.body)]
-    ck.ob('R2', ex.qn, 'the predicted PDU size is doubled for ASCII (two hex characters per byte)', len(dbl) == 1, detail='ascii-doubling', loc=cx.floc(ex))
+    # on the paths to the retry loop: what is handed to _calculate_response_length is the request's prediction, times two exactly when
+    # the framer is the ASCII framer (helpers factored out of execute() are inlined)
+    from ..txmodel import TxShape
+    sh_ = TxShape(cx)
+    seen_d, ok_d = set(), True
+    for p in cx.enum_region(sh_.ex, sh_.tm, stop=[sh_.loop]):
+        annotate(p, heap=False)
+        ascii_ = None
+        for e in p.ev:
+            t = getattr(e, '_sub', None)
+            if e.kind == 'cond' and isinstance(t, ast.Call) and callee_name(t) == 'isinstance' and len(t.args) == 2 and U(t.args[1]) == 'ModbusAsciiFramer':
+                ascii_ = e.a
+        for e in p.ev:
+            if e.kind == 'call' and callee_name(e.node) == '_calculate_response_length' and getattr(e, '_sub', None) is not None and e._sub.args:
+                a = U(e._sub.args[0]).replace(' ', '')
+                base = '%s.get_response_pdu_size()' % sh_.req
+                doubled = a in (base + '*2', '2*' + base)
+                plain = a == base
+                seen_d.add((ascii_, doubled))
+                if (ascii_ is True and not doubled) or (ascii_ is False and not plain):
+                    ok_d = False
+    ck.ob('R2', ex.qn, 'the predicted PDU size is doubled for ASCII (two hex characters per byte)', ok_d and (True, True) in seen_d and (False, False) in seen_d,
+          detail='ascii-doubling', loc=cx.floc(ex))
     f4 = cx.method(tm, '_calculate_response_length')
     okr = False
     for p in cx.enum(f4, tm, max_depth=0):
